@@ -275,8 +275,8 @@ def h_chunked(k, mx, fam, c_src, n_src, n_dst, axis, extra, dtype, nodata, dchun
     calls = []
     real_reproject = warp.rasterio.warp.reproject
 
-    def fake_reproject(src_, dst_, **kw):
-        calls.append((src_, dst_, kw))
+    def fake_reproject(source, destination=None, **kw):  # rasterio.warp.reproject's own parameter names
+        calls.append((source, destination, kw))
 
     warp.rasterio.warp.reproject = fake_reproject
     try:
@@ -503,7 +503,7 @@ def h_chunk_any_selection(nsel, extra):
     blocks = [FakeBlock((r, c), (*lead, chy[r], chx[c]), "int16") for r, c in selv]
     calls = []
     real_reproject = warp.rasterio.warp.reproject
-    warp.rasterio.warp.reproject = lambda s_, d_, **kw: calls.append((s_, d_, kw))
+    warp.rasterio.warp.reproject = lambda source, destination=None, **kw: calls.append((source, destination, kw))
     try:
         res = dk._do_chunked_reproject({(0, 0): selv}, src_gbt, dst_gbt, (0, 0), *blocks, axis=ydim)
     finally:
@@ -791,8 +791,8 @@ def h_in_memory_planes(layout, dtype="int16"):
     calls = []
     real_reproject = warp.rasterio.warp.reproject
 
-    def fake_reproject(src_, dst_, **kw):
-        calls.append((src_, dst_, kw))
+    def fake_reproject(source, destination=None, **kw):  # rasterio.warp.reproject's own parameter names
+        calls.append((source, destination, kw))
 
     warp.rasterio.warp.reproject = fake_reproject
     try:
